@@ -605,14 +605,23 @@ class ClientTls(Client):
                 return False
             elif ex.errno in (ssl.SSL_ERROR_EOF, ):
                 self.shutclose()
-                raise   # should give up here nicely
+                self.cutoff = True  # far side closed during handshake so give up
+                return False
             else:
                 self.shutclose()
                 raise
         except OSError as ex:
             self.shutclose()
-            if ex.errno in (errno.ECONNABORTED, ):
-                raise  # should give up here nicely
+            if ex.errno in (errno.ECONNRESET,
+                            errno.ENETRESET,
+                            errno.ENETUNREACH,
+                            errno.EHOSTUNREACH,
+                            errno.ENETDOWN,
+                            errno.EHOSTDOWN,
+                            errno.ETIMEDOUT,
+                            errno.ECONNREFUSED):
+                self.cutoff = True  # connection lost during handshake so give up
+                return False
             raise
         except Exception as ex:
             self.shutclose()
